@@ -31,8 +31,8 @@ def inst(ex, us=None):
 
 
 def name_str(n):
-    base, ver = n
-    return base + ("@%d.%d.%d" % ver if ver else "")
+    base, ver = n[0], n[1]
+    return base + ("@%d.%d.%d" % ver if ver else "") + ("+" + n[2] if len(n) > 2 else "")
 
 
 I, T, Q = "ns:p/i", "ns:p/types", "ns:q/j"
@@ -101,6 +101,8 @@ def contributors():
     c.append({"imports": [(T0, types_r), (I0, using(T0, types_r))], "agg": [1]})             # 35 only the user is aggregated
     c.append({"imports": [(T0, types_r), (I0, using(T0, types_r))], "agg": [1, 0]})          # 36 user first
     c.append({"imports": [(T1, types_rs), (I1, using(T1, types_rs, {"a": fA}))], "agg": [1]})      # 37
+    # a version that differs from another one in build metadata only (appended: ids are quoted elsewhere)
+    one((I, (0, 2, 1), "b2"), inst({"w": fA}))               # 38
     for i, x in enumerate(c):
         x["id"] = i + 1
         x["e2e"] = x["agg"] == list(range(len(x["imports"])))
@@ -109,9 +111,10 @@ def contributors():
 
 # ------------------------------------------------------------------ TLA+
 def tla_name(n):
-    base, ver = n
+    base, ver = n[0], n[1]
     v = "<<%d, %d, %d>>" % ver if ver else "<<>>"
-    return f'[s |-> {tla_str(name_str(n))}, base |-> {tla_str(base)}, ver |-> {v}, pre |-> FALSE, build |-> FALSE, iface |-> {"TRUE" if ":" in base else "FALSE"}]'
+    build = "TRUE" if len(n) > 2 else "FALSE"
+    return f'[s |-> {tla_str(name_str(n))}, base |-> {tla_str(base)}, ver |-> {v}, pre |-> FALSE, build |-> {build}, iface |-> {"TRUE" if ":" in base else "FALSE"}]'
 
 
 def tla_fun(d, render):
